@@ -459,3 +459,6 @@ func (e *Errs) Err() error {
 	}
 	return fmt.Errorf("%s", strings.Join(e.list, "; "))
 }
+
+// IsKnownClass reports whether class is a listed known finding.
+func (r *Runner) IsKnownClass(class string) bool { return r.knownClasses[class] }
